@@ -9,19 +9,22 @@ From GV Require Import Lang.GlSyntax Lang.GlSem Lang.GlSemProofs Lang.GlConc Tr.
 Import ListNotations.
 Local Open Scope nat_scope.
 
-(* run the machine on one expression; a forked child is run first, to completion *)
-Fixpoint mrun (k : nat) (e : expr) (s : state) : option (val * state) :=
+(* run the machine on one expression; a forked child is run first, to completion.
+   ap performs the application of two values (apply_step for the machine itself) *)
+Fixpoint mrung (ap : val -> val -> state -> sres) (k : nat) (e : expr) (s : state) : option (val * state) :=
   match k with
   | O => None
   | S k' =>
-      match step1 e s with
+      match step1g ap e s with
       | SVal v => Some (v, s)
-      | SPure e' => mrun k' e' s
-      | SMem e' s' _ => mrun k' e' s'
-      | SFork e' c => match mrun k' c s with Some (_, s1) => mrun k' e' s1 | None => None end
+      | SPure e' => mrung ap k' e' s
+      | SMem e' s' _ => mrung ap k' e' s'
+      | SFork e' c => match mrung ap k' c s with Some (_, s1) => mrung ap k' e' s1 | None => None end
       | SYield _ _ | SBlocked | SStuck _ => None
       end
   end.
+
+Definition mrun : nat -> expr -> state -> option (val * state) := mrung apply_step.
 
 (* (e, s) evaluates to whatever (e', s') evaluates to *)
 Definition sim2 (e : expr) (s : state) (e' : expr) (s' : state) : Prop :=
@@ -138,23 +141,6 @@ Proof.
     destruct (cond_lock _ _); try discriminate; destruct (exec_prim _ _ _); discriminate.
 Qed.
 
-Lemma step1_val e s v : step1 e s = SVal v -> e = Val v.
-Proof.
-  destruct e; cbn [step1]; intros H; try discriminate.
-  - congruence.
-  - destruct (step1 e2 s); try (exfalso; exact (in_ctx_not_val _ _ _ H)).
-    destruct (step1 e1 s); try (exfalso; exact (in_ctx_not_val _ _ _ H)).
-    exfalso; exact (apply_step_not_val _ _ _ _ H).
-  - destruct (step1 e s); try (exfalso; exact (in_ctx_not_val _ _ _ H)). destruct (un_op_eval _ _); discriminate.
-  - destruct (step1 e2 s); try (exfalso; exact (in_ctx_not_val _ _ _ H)).
-    destruct (step1 e1 s); try (exfalso; exact (in_ctx_not_val _ _ _ H)). destruct (bin_op_eval _ _ _); discriminate.
-  - destruct (step1 e1 s) as [[[| | |[|]| | | |]| | |]| | | | | |]; try discriminate; try (exfalso; exact (in_ctx_not_val _ _ _ H)).
-  - destruct (step1 e2 s); try (exfalso; exact (in_ctx_not_val _ _ _ H)).
-    destruct (step1 e1 s); try (exfalso; exact (in_ctx_not_val _ _ _ H)). discriminate.
-  - destruct (step1 e s) as [[| | |]| | | | | |]; try discriminate; try (exfalso; exact (in_ctx_not_val _ _ _ H)).
-  - destruct (step1 e s) as [[| | |]| | | | | |]; try discriminate; try (exfalso; exact (in_ctx_not_val _ _ _ H)).
-Qed.
-
 Definition step_ok (e : expr) (s : state) (r : sres) : Prop :=
   match r with
   | SPure e' => sim2 e s e' s
@@ -195,6 +181,29 @@ Proof.
           (destruct (cond_lock c s); [|exact I]); destruct (exec_prim PLockRelease _ s); exact I.
 Qed.
 
+(* ---------------------------------------------------------------- any machine whose applications are sound *)
+Section Generic.
+Variable ap : val -> val -> state -> sres.
+Hypothesis Hnv : forall vf va s v, ap vf va s <> SVal v.
+Hypothesis Hok : forall vf va s, step_ok (App (Val vf) (Val va)) s (ap vf va s).
+
+Lemma step1g_val e s v : step1g ap e s = SVal v -> e = Val v.
+Proof.
+  destruct e; cbn [step1g]; intros H; try discriminate.
+  - congruence.
+  - destruct (step1g ap e2 s); try (exfalso; exact (in_ctx_not_val _ _ _ H)).
+    destruct (step1g ap e1 s); try (exfalso; exact (in_ctx_not_val _ _ _ H)).
+    exfalso; exact (Hnv _ _ _ _ H).
+  - destruct (step1g ap e s); try (exfalso; exact (in_ctx_not_val _ _ _ H)). destruct (un_op_eval _ _); discriminate.
+  - destruct (step1g ap e2 s); try (exfalso; exact (in_ctx_not_val _ _ _ H)).
+    destruct (step1g ap e1 s); try (exfalso; exact (in_ctx_not_val _ _ _ H)). destruct (bin_op_eval _ _ _); discriminate.
+  - destruct (step1g ap e1 s) as [[[| | |[|]| | | |]| | |]| | | | | |]; try discriminate; try (exfalso; exact (in_ctx_not_val _ _ _ H)).
+  - destruct (step1g ap e2 s); try (exfalso; exact (in_ctx_not_val _ _ _ H)).
+    destruct (step1g ap e1 s); try (exfalso; exact (in_ctx_not_val _ _ _ H)). discriminate.
+  - destruct (step1g ap e s) as [[| | |]| | | | | |]; try discriminate; try (exfalso; exact (in_ctx_not_val _ _ _ H)).
+  - destruct (step1g ap e s) as [[| | |]| | | | | |]; try discriminate; try (exfalso; exact (in_ctx_not_val _ _ _ H)).
+Qed.
+
 Lemma step_ok_in_ctx f e s r :
   step_ok e s r -> (forall v, r <> SVal v) -> step_ok (fill f e) s (in_ctx (fill f) r).
 Proof.
@@ -207,17 +216,17 @@ Qed.
 Lemma sim2_pure_head e s e' : (forall n w s1, eval n e' s = RVal w s1 -> evals e s w s1) -> sim2 e s e' s.
 Proof. intros H w s1 [n Hn]. exact (H n w s1 Hn). Qed.
 
-Lemma step1_ok : forall e s, step_ok e s (step1 e s).
+Lemma step1g_ok : forall e s, step_ok e s (step1g ap e s).
 Proof.
   induction e as [v|x|fb xb b|e1 IH1 e2 IH2|op e1 IH1|op e1 IH1 e2 IH2|e0 IH0 e1 IH1 e2 IH2|e1 IH1 e2 IH2|e1 IH1|e1 IH1|e1 IH1];
-    intros s; cbn [step1]; try exact I.
+    intros s; cbn [step1g]; try exact I.
   - (* Rec *)
     cbn [step_ok]. intros w s1 Hv. apply evals_of_val in Hv as [-> ->]. exists 1. reflexivity.
   - (* App *)
-    destruct (step1 e2 s) as [v2| | | | | |] eqn:E2.
-    + apply step1_val in E2 as ->.
-      destruct (step1 e1 s) as [v1| | | | | |] eqn:E1.
-      * apply step1_val in E1 as ->. apply apply_step_ok.
+    destruct (step1g ap e2 s) as [v2| | | | | |] eqn:E2.
+    + apply step1g_val in E2 as ->.
+      destruct (step1g ap e1 s) as [v1| | | | | |] eqn:E1.
+      * apply step1g_val in E1 as ->. apply Hok.
       * rewrite <- E1. apply (step_ok_in_ctx (FAppL v2)); [apply IH1|rewrite E1; discriminate].
       * rewrite <- E1. apply (step_ok_in_ctx (FAppL v2)); [apply IH1|rewrite E1; discriminate].
       * rewrite <- E1. apply (step_ok_in_ctx (FAppL v2)); [apply IH1|rewrite E1; discriminate].
@@ -231,18 +240,18 @@ Proof.
     + exact I.
     + exact I.
   - (* UnOp *)
-    destruct (step1 e1 s) as [v1| | | | | |] eqn:E1; try exact I.
-    + apply step1_val in E1 as ->. destruct (un_op_eval op v1) as [r|] eqn:Eo; [|exact I].
+    destruct (step1g ap e1 s) as [v1| | | | | |] eqn:E1; try exact I.
+    + apply step1g_val in E1 as ->. destruct (un_op_eval op v1) as [r|] eqn:Eo; [|exact I].
       cbn [step_ok]. intros w s1 Hv. apply evals_of_val in Hv as [-> ->].
       exists 2. rewrite eval_S_unfold. unfold eval_step at 1. rewrite eval_val_S, Eo. reflexivity.
     + rewrite <- E1. apply (step_ok_in_ctx (FUnOp op)); [apply IH1|rewrite E1; discriminate].
     + rewrite <- E1. apply (step_ok_in_ctx (FUnOp op)); [apply IH1|rewrite E1; discriminate].
     + rewrite <- E1. apply (step_ok_in_ctx (FUnOp op)); [apply IH1|rewrite E1; discriminate].
   - (* BinOp *)
-    destruct (step1 e2 s) as [v2| | | | | |] eqn:E2; try exact I.
-    + apply step1_val in E2 as ->.
-      destruct (step1 e1 s) as [v1| | | | | |] eqn:E1; try exact I.
-      * apply step1_val in E1 as ->. destruct (bin_op_eval op v1 v2) as [r|] eqn:Eo; [|exact I].
+    destruct (step1g ap e2 s) as [v2| | | | | |] eqn:E2; try exact I.
+    + apply step1g_val in E2 as ->.
+      destruct (step1g ap e1 s) as [v1| | | | | |] eqn:E1; try exact I.
+      * apply step1g_val in E1 as ->. destruct (bin_op_eval op v1 v2) as [r|] eqn:Eo; [|exact I].
         cbn [step_ok]. intros w s1 Hv. apply evals_of_val in Hv as [-> ->].
         exists 2. rewrite eval_S_unfold. unfold eval_step at 1. rewrite !eval_val_S, Eo. reflexivity.
       * rewrite <- E1. apply (step_ok_in_ctx (FBinL op v2)); [apply IH1|rewrite E1; discriminate].
@@ -252,18 +261,18 @@ Proof.
     + rewrite <- E2. apply (step_ok_in_ctx (FBinR op e1)); [apply IH2|rewrite E2; discriminate].
     + rewrite <- E2. apply (step_ok_in_ctx (FBinR op e1)); [apply IH2|rewrite E2; discriminate].
   - (* If *)
-    destruct (step1 e0 s) as [v0| | | | | |] eqn:E0; try exact I.
-    + apply step1_val in E0 as ->.
+    destruct (step1g ap e0 s) as [v0| | | | | |] eqn:E0; try exact I.
+    + apply step1g_val in E0 as ->.
       destruct v0 as [[| | |[|]| | | |]| | |]; try exact I; cbn [step_ok]; apply sim2_pure_head; intros n w s1 H;
         exists (S (S n)); rewrite eval_S_unfold; unfold eval_step at 1; rewrite eval_val_S; apply (evals_fuel _ _ _ _ _ (S n) H); lia.
     + rewrite <- E0. apply (step_ok_in_ctx (FIf e1 e2)); [apply IH0|rewrite E0; discriminate].
     + rewrite <- E0. apply (step_ok_in_ctx (FIf e1 e2)); [apply IH0|rewrite E0; discriminate].
     + rewrite <- E0. apply (step_ok_in_ctx (FIf e1 e2)); [apply IH0|rewrite E0; discriminate].
   - (* Pair *)
-    destruct (step1 e2 s) as [v2| | | | | |] eqn:E2; try exact I.
-    + apply step1_val in E2 as ->.
-      destruct (step1 e1 s) as [v1| | | | | |] eqn:E1; try exact I.
-      * apply step1_val in E1 as ->.
+    destruct (step1g ap e2 s) as [v2| | | | | |] eqn:E2; try exact I.
+    + apply step1g_val in E2 as ->.
+      destruct (step1g ap e1 s) as [v1| | | | | |] eqn:E1; try exact I.
+      * apply step1g_val in E1 as ->.
         cbn [step_ok]. intros w s1 Hv. apply evals_of_val in Hv as [-> ->].
         exists 2. rewrite eval_S_unfold. unfold eval_step at 1. rewrite !eval_val_S. reflexivity.
       * rewrite <- E1. apply (step_ok_in_ctx (FPairL v2)); [apply IH1|rewrite E1; discriminate].
@@ -273,16 +282,16 @@ Proof.
     + rewrite <- E2. apply (step_ok_in_ctx (FPairR e1)); [apply IH2|rewrite E2; discriminate].
     + rewrite <- E2. apply (step_ok_in_ctx (FPairR e1)); [apply IH2|rewrite E2; discriminate].
   - (* Fst *)
-    destruct (step1 e1 s) as [v1| | | | | |] eqn:E1; try exact I.
-    + apply step1_val in E1 as ->. destruct v1 as [|  |a b|]; try exact I.
+    destruct (step1g ap e1 s) as [v1| | | | | |] eqn:E1; try exact I.
+    + apply step1g_val in E1 as ->. destruct v1 as [|  |a b|]; try exact I.
       cbn [step_ok]. intros w s1 Hv. apply evals_of_val in Hv as [-> ->].
       exists 2. rewrite eval_S_unfold. unfold eval_step at 1. rewrite eval_val_S. reflexivity.
     + rewrite <- E1. apply (step_ok_in_ctx FFst); [apply IH1|rewrite E1; discriminate].
     + rewrite <- E1. apply (step_ok_in_ctx FFst); [apply IH1|rewrite E1; discriminate].
     + rewrite <- E1. apply (step_ok_in_ctx FFst); [apply IH1|rewrite E1; discriminate].
   - (* Snd *)
-    destruct (step1 e1 s) as [v1| | | | | |] eqn:E1; try exact I.
-    + apply step1_val in E1 as ->. destruct v1 as [|  |a b|]; try exact I.
+    destruct (step1g ap e1 s) as [v1| | | | | |] eqn:E1; try exact I.
+    + apply step1g_val in E1 as ->. destruct v1 as [|  |a b|]; try exact I.
       cbn [step_ok]. intros w s1 Hv. apply evals_of_val in Hv as [-> ->].
       exists 2. rewrite eval_S_unfold. unfold eval_step at 1. rewrite eval_val_S. reflexivity.
     + rewrite <- E1. apply (step_ok_in_ctx FSnd); [apply IH1|rewrite E1; discriminate].
@@ -294,14 +303,232 @@ Proof.
 Qed.
 
 (* the theorem: a run of the machine is an evaluation *)
-Theorem mrun_sound : forall k e s v s', mrun k e s = Some (v, s') -> evals e s v s'.
+Theorem mrung_sound : forall k e s v s', mrung ap k e s = Some (v, s') -> evals e s v s'.
 Proof.
-  induction k as [|k IH]; intros e s v s' H; [discriminate|]. cbn [mrun] in H.
-  pose proof (step1_ok e s) as Hok.
-  destruct (step1 e s) as [v0|e'|e' s0 pr|e' c|e' s0| |w] eqn:E; try discriminate.
-  - injection H as <- <-. apply step1_val in E as ->. apply evals_val.
-  - exact (Hok _ _ (IH _ _ _ _ H)).
-  - exact (Hok _ _ (IH _ _ _ _ H)).
-  - destruct (mrun k c s) as [[wc sc]|] eqn:Ec; [|discriminate].
-    exact (Hok _ _ (IH _ _ _ _ Ec) _ _ (IH _ _ _ _ H)).
+  induction k as [|k IH]; intros e s v s' H; [discriminate|]. cbn [mrung] in H.
+  pose proof (step1g_ok e s) as Hst.
+  destruct (step1g ap e s) as [v0|e'|e' s0 pr|e' c|e' s0| |w] eqn:E; try discriminate.
+  - injection H as <- <-. apply step1g_val in E as ->. apply evals_val.
+  - exact (Hst _ _ (IH _ _ _ _ H)).
+  - exact (Hst _ _ (IH _ _ _ _ H)).
+  - destruct (mrung ap k c s) as [[wc sc]|] eqn:Ec; [|discriminate].
+    exact (Hst _ _ (IH _ _ _ _ Ec) _ _ (IH _ _ _ _ H)).
+Qed.
+End Generic.
+
+Lemma step1_val e s v : step1 e s = SVal v -> e = Val v.
+Proof. exact (step1g_val apply_step apply_step_not_val e s v). Qed.
+
+Lemma step1_ok : forall e s, step_ok e s (step1 e s).
+Proof. exact (step1g_ok apply_step apply_step_not_val apply_step_ok). Qed.
+
+Theorem mrun_sound : forall k e s v s', mrun k e s = Some (v, s') -> evals e s v s'.
+Proof. exact (mrung_sound apply_step apply_step_not_val apply_step_ok). Qed.
+
+(* ================================================================ the converse *)
+(* The sequential semantics treats a wait on a condition variable as a no-op
+   (GlSem.exec_prim); the machine releases the lock, lets the other threads
+   move, and re-acquires it.  apply_seq is apply_step with exactly that
+   difference removed: a fully applied condWait / condWaitTimeout is executed
+   by exec_prim like every other library function.  Over apply_seq the machine
+   and the evaluator agree in both directions. *)
+Definition waits (p : prim) : bool :=
+  match p with PCondWait | PCondWaitTimeout => true | _ => false end.
+
+Definition prim_step (p : prim) (args' : list val) (s : state) : sres :=
+  match exec_prim p args' s with
+  | RVal v s' => SMem (Val v) s' (is_progress p)
+  | RStuck w => SStuck w
+  | RFuel => SBlocked
+  end.
+
+Definition apply_seq (vf va : val) (s : state) : sres :=
+  match vf with
+  | PrimV p args =>
+      if waits p && negb (Nat.ltb (length (args ++ [va])) (arity p))
+      then prim_step p (args ++ [va])%list s
+      else apply_step vf va s
+  | _ => apply_step vf va s
+  end.
+
+Definition step1s : expr -> state -> sres := step1g apply_seq.
+Definition mrun_seq : nat -> expr -> state -> option (val * state) := mrung apply_seq.
+
+(* where the two machines differ: nowhere but at a fully applied wait *)
+Lemma apply_seq_differs vf va s :
+  apply_seq vf va s <> apply_step vf va s ->
+  exists p args, vf = PrimV p args /\ waits p = true /\ Nat.ltb (length (args ++ [va])) (arity p) = false.
+Proof.
+  unfold apply_seq. destruct vf as [l|fb xb body|v1 v2|p args]; try congruence.
+  destruct (waits p) eqn:Ew; cbn [andb]; [|congruence].
+  destruct (Nat.ltb _ _) eqn:El; cbn [negb]; [congruence|]. intros _. exists p, args. auto.
+Qed.
+
+Lemma waits_not_loop p : waits p = true -> is_loop p = false.
+Proof. destruct p; cbn; congruence. Qed.
+
+(* apply_step on a fully applied library function that is neither a loop nor a wait *)
+Lemma apply_step_prim p args va s :
+  Nat.ltb (length (args ++ [va])) (arity p) = false -> is_loop p = false -> waits p = false ->
+  apply_step (PrimV p args) va s = prim_step p (args ++ [va])%list s.
+Proof.
+  intros El Eloop Ew. unfold apply_step. cbv zeta. rewrite El, Eloop. unfold prim_step.
+  destruct p; try reflexivity; discriminate.
+Qed.
+
+Lemma prim_step_not_val p args s v : prim_step p args s <> SVal v.
+Proof. unfold prim_step. destruct (exec_prim p args s); discriminate. Qed.
+
+Lemma apply_seq_not_val vf va s v : apply_seq vf va s <> SVal v.
+Proof.
+  unfold apply_seq. destruct vf as [l|fb xb body|v1 v2|p args]; try apply apply_step_not_val.
+  destruct (waits p && _); [apply prim_step_not_val|apply apply_step_not_val].
+Qed.
+
+Lemma apply_seq_ok vf va s : step_ok (App (Val vf) (Val va)) s (apply_seq vf va s).
+Proof.
+  unfold apply_seq. destruct vf as [l|fb xb body|v1 v2|p args]; try apply apply_step_ok.
+  destruct (waits p) eqn:Ew; cbn [andb]; [|apply apply_step_ok].
+  destruct (Nat.ltb _ _) eqn:El; cbn [negb]; [apply apply_step_ok|].
+  unfold prim_step. destruct (exec_prim p (args ++ [va]) s) as [v s'| |] eqn:Ee; try exact I.
+  cbn [step_ok]. intros w s1 Hv. apply evals_of_val in Hv as [-> ->].
+  exists 2. rewrite eval_S_unfold. unfold eval_step at 1. rewrite !eval_val_S. rewrite El, (waits_not_loop _ Ew). exact Ee.
+Qed.
+
+Theorem mrun_seq_sound : forall k e s v s', mrun_seq k e s = Some (v, s') -> evals e s v s'.
+Proof. exact (mrung_sound apply_seq apply_seq_not_val apply_seq_ok). Qed.
+
+(* ---------------------------------------------------------------- runs inside evaluation contexts *)
+Section Runs.
+Variable ap : val -> val -> state -> sres.
+Hypothesis Hnv : forall vf va s v, ap vf va s <> SVal v.
+
+Lemma mrung_mono : forall k k' e s r, mrung ap k e s = Some r -> k <= k' -> mrung ap k' e s = Some r.
+Proof.
+  induction k as [|k IH]; intros k' e s r H Hle; [discriminate|].
+  destruct k' as [|k']; [lia|]. cbn [mrung] in *.
+  destruct (step1g ap e s) as [v0|e'|e' s0 pr|e' c|e' s0| |w]; try discriminate; try exact H.
+  - apply (IH k'); [exact H|lia].
+  - apply (IH k'); [exact H|lia].
+  - destruct (mrung ap k c s) as [[wc sc]|] eqn:Ec; [|discriminate].
+    rewrite (IH k' _ _ _ Ec) by lia. apply (IH k'); [exact H|lia].
+Qed.
+
+Lemma step1g_fill f e s :
+  (forall v, step1g ap e s <> SVal v) -> step1g ap (fill f e) s = in_ctx (fill f) (step1g ap e s).
+Proof.
+  intros Hv. destruct f; cbn [fill step1g]; destruct (step1g ap e s) as [v0| | | | | |]; try reflexivity;
+    exfalso; exact (Hv v0 eq_refl).
+Qed.
+
+Lemma mrung_fill f : forall k e s v sa j r,
+  mrung ap k e s = Some (v, sa) -> mrung ap j (fill f (Val v)) sa = Some r ->
+  mrung ap (k + j) (fill f e) s = Some r.
+Proof.
+  induction k as [|k IH]; intros e s v sa j r H Hj; [discriminate|].
+  cbn [mrung] in H.
+  destruct (step1g ap e s) as [v0|e'|e' s0 pr|e' c|e' s0| |w] eqn:E; try discriminate.
+  - injection H as <- <-. apply (step1g_val ap Hnv) in E as ->. apply (mrung_mono j); [exact Hj|lia].
+  - change (S k + j) with (S (k + j)). cbn [mrung]. rewrite step1g_fill by (rewrite E; discriminate). rewrite E. cbn [in_ctx].
+    exact (IH _ _ _ _ _ _ H Hj).
+  - change (S k + j) with (S (k + j)). cbn [mrung]. rewrite step1g_fill by (rewrite E; discriminate). rewrite E. cbn [in_ctx].
+    exact (IH _ _ _ _ _ _ H Hj).
+  - change (S k + j) with (S (k + j)). cbn [mrung]. rewrite step1g_fill by (rewrite E; discriminate). rewrite E. cbn [in_ctx].
+    destruct (mrung ap k c s) as [[wc sc]|] eqn:Ec; [|discriminate].
+    rewrite (mrung_mono k (k + j) _ _ _ Ec) by lia. exact (IH _ _ _ _ _ _ H Hj).
+Qed.
+End Runs.
+
+Lemma loop_not_waits p : is_loop p = true -> waits p = false.
+Proof. destruct p; cbn; congruence. Qed.
+
+Lemma mrun_seq_val k v s : mrun_seq (S k) (Val v) s = Some (v, s).
+Proof. reflexivity. Qed.
+
+Definition mfill := mrung_fill apply_seq apply_seq_not_val.
+
+(* every evaluation is a run of the (sequential-wait) machine *)
+Theorem eval_is_mrun_seq : forall n e s v s',
+  eval n e s = RVal v s' -> exists k, mrun_seq k e s = Some (v, s').
+Proof.
+  induction n as [|n IH]; intros e s v s' H; [discriminate|].
+  rewrite eval_S_unfold in H.
+  destruct e as [v0|x|fb xb b|e1 e2|op e1|op e1 e2|e0 e1 e2|e1 e2|e1|e1|e1]; unfold eval_step in H.
+  - injection H as <- <-. exists 1. reflexivity.
+  - discriminate.
+  - injection H as <- <-. exists 2. reflexivity.
+  - (* App *)
+    destruct (eval n e2 s) as [v2 s1| |] eqn:E2; try discriminate.
+    destruct (eval n e1 s1) as [v1 s2| |] eqn:E1; try discriminate.
+    destruct (IH _ _ _ _ E2) as [k2 K2]. destruct (IH _ _ _ _ E1) as [k1 K1].
+    assert (Hhead : exists k3, mrun_seq k3 (App (Val v1) (Val v2)) s2 = Some (v, s')).
+    { destruct v1 as [l|gb yb body|a b|p args]; try discriminate.
+      - destruct (IH _ _ _ _ H) as [k K]. exists (S k). unfold mrun_seq. cbn [mrung step1g apply_seq apply_step]. exact K.
+      - set (args' := (args ++ [v2])%list) in *.
+        destruct (Nat.ltb (length args') (arity p)) eqn:El.
+        + injection H as <- <-. exists 2. unfold mrun_seq. cbn [mrung step1g apply_seq]. fold args'. rewrite El. cbn [negb].
+          rewrite Bool.andb_false_r. unfold apply_step. cbv zeta. fold args'. rewrite El. reflexivity.
+        + destruct (is_loop p) eqn:Eloop.
+          * destruct (expand_loop p args' s2) as [e'|] eqn:Ex; [|discriminate].
+            destruct (IH _ _ _ _ H) as [k K]. exists (S k). unfold mrun_seq. cbn [mrung step1g apply_seq].
+            rewrite (loop_not_waits _ Eloop). cbn [andb]. unfold apply_step. cbv zeta. fold args'. rewrite El, Eloop, Ex. exact K.
+          * exists 2. unfold mrun_seq. cbn [mrung step1g apply_seq]. fold args'. rewrite El. cbn [negb].
+            destruct (waits p) eqn:Ew; cbn [andb].
+            -- unfold prim_step. rewrite H. reflexivity.
+            -- rewrite (apply_step_prim p args v2 s2 El Eloop Ew). unfold prim_step. fold args'. rewrite H. reflexivity. }
+    destruct Hhead as [k3 K3].
+    exists (k2 + (k1 + k3)).
+    change (App e1 e2) with (fill (FAppR e1) e2). apply (mfill (FAppR e1) k2 e2 s v2 s1 (k1 + k3) (v, s') K2). cbn [fill].
+    change (App e1 (Val v2)) with (fill (FAppL v2) e1). apply (mfill (FAppL v2) k1 e1 s1 v1 s2 k3 (v, s') K1). exact K3.
+  - (* UnOp *)
+    destruct (eval n e1 s) as [v1 s1| |] eqn:E1; try discriminate. destruct (IH _ _ _ _ E1) as [k1 K1].
+    destruct (un_op_eval op v1) as [r|] eqn:Eo; [|discriminate]. injection H as <- <-.
+    exists (k1 + 2). change (UnOp op e1) with (fill (FUnOp op) e1). apply (mfill (FUnOp op) k1 e1 s v1 s1 2 _ K1).
+    unfold mrun_seq. cbn [fill mrung step1g]. rewrite Eo. reflexivity.
+  - (* BinOp *)
+    destruct (eval n e2 s) as [v2 s1| |] eqn:E2; try discriminate.
+    destruct (eval n e1 s1) as [v1 s2| |] eqn:E1; try discriminate.
+    destruct (IH _ _ _ _ E2) as [k2 K2]. destruct (IH _ _ _ _ E1) as [k1 K1].
+    destruct (bin_op_eval op v1 v2) as [r|] eqn:Eo; [|discriminate]. injection H as <- <-.
+    exists (k2 + (k1 + 2)).
+    change (BinOp op e1 e2) with (fill (FBinR op e1) e2). apply (mfill (FBinR op e1) k2 e2 s v2 s1 (k1 + 2) _ K2). cbn [fill].
+    change (BinOp op e1 (Val v2)) with (fill (FBinL op v2) e1). apply (mfill (FBinL op v2) k1 e1 s1 v1 s2 2 _ K1).
+    unfold mrun_seq. cbn [fill mrung step1g]. rewrite Eo. reflexivity.
+  - (* If *)
+    destruct (eval n e0 s) as [v0 s1| |] eqn:E0; try discriminate. destruct (IH _ _ _ _ E0) as [k0 K0].
+    destruct v0 as [[| | |[|]| | | |]| | |]; try discriminate; destruct (IH _ _ _ _ H) as [k K];
+      exists (k0 + S k); change (If e0 e1 e2) with (fill (FIf e1 e2) e0);
+      apply (mfill (FIf e1 e2) k0 e0 s _ s1 (S k) _ K0); unfold mrun_seq; cbn [fill mrung step1g]; exact K.
+  - (* Pair *)
+    destruct (eval n e2 s) as [v2 s1| |] eqn:E2; try discriminate.
+    destruct (eval n e1 s1) as [v1 s2| |] eqn:E1; try discriminate.
+    destruct (IH _ _ _ _ E2) as [k2 K2]. destruct (IH _ _ _ _ E1) as [k1 K1]. injection H as <- <-.
+    exists (k2 + (k1 + 2)).
+    change (Pair e1 e2) with (fill (FPairR e1) e2). apply (mfill (FPairR e1) k2 e2 s v2 s1 (k1 + 2) _ K2). cbn [fill].
+    change (Pair e1 (Val v2)) with (fill (FPairL v2) e1). apply (mfill (FPairL v2) k1 e1 s1 v1 s2 2 _ K1).
+    reflexivity.
+  - (* Fst *)
+    destruct (eval n e1 s) as [v1 s1| |] eqn:E1; try discriminate. destruct (IH _ _ _ _ E1) as [k1 K1].
+    destruct v1 as [| |a b|]; try discriminate. injection H as <- <-.
+    exists (k1 + 2). change (Fst e1) with (fill FFst e1). apply (mfill FFst k1 e1 s _ s1 2 _ K1). reflexivity.
+  - (* Snd *)
+    destruct (eval n e1 s) as [v1 s1| |] eqn:E1; try discriminate. destruct (IH _ _ _ _ E1) as [k1 K1].
+    destruct v1 as [| |a b|]; try discriminate. injection H as <- <-.
+    exists (k1 + 2). change (Snd e1) with (fill FSnd e1). apply (mfill FSnd k1 e1 s _ s1 2 _ K1). reflexivity.
+  - (* Fork *)
+    destruct (eval n e1 s) as [w s1| |] eqn:E1; try discriminate. injection H as <- <-.
+    destruct (IH _ _ _ _ E1) as [k1 K1]. destruct k1 as [|k1]; [discriminate|].
+    exists (S (S k1)). unfold mrun_seq in *.
+    change (mrung apply_seq (S (S k1)) (Fork e1) s)
+      with (match mrung apply_seq (S k1) e1 s with Some (_, sc) => mrung apply_seq (S k1) (Val (LitV LitUnit)) sc | None => None end).
+    rewrite K1. reflexivity.
+Qed.
+
+(* the two reference semantics agree on one thread *)
+Theorem seq_machine_iff_eval e s v s' :
+  (exists k, mrun_seq k e s = Some (v, s')) <-> (exists n, eval n e s = RVal v s').
+Proof.
+  split.
+  - intros [k H]. exact (mrun_seq_sound k e s v s' H).
+  - intros [n H]. exact (eval_is_mrun_seq n e s v s' H).
 Qed.
